@@ -2120,11 +2120,27 @@ impl XmlDocumentTypeDeclaration {
             .collect()
     }
 
+    /// The general entities the declarations bind: when a name is declared more than once the first
+    /// declaration is binding (XML 1.0 4.2), the others declare nothing.
+    pub fn binding_entities(&self) -> Vec<XmlNode<XmlEntity>> {
+        let mut names: Vec<String> = vec![];
+        self.entities()
+            .into_iter()
+            .filter(|v| {
+                let name = v.borrow().name.clone();
+                if names.contains(&name) {
+                    false
+                } else {
+                    names.push(name);
+                    true
+                }
+            })
+            .collect()
+    }
+
     pub fn unparsed_entities(&self) -> Vec<XmlNode<XmlUnparsedEntity>> {
-        self.children
-            .borrow()
+        self.binding_entities()
             .iter()
-            .filter_map(|v| v.as_entity())
             .filter(|v| v.borrow().notation_name.is_some())
             .map(|v| XmlUnparsedEntity::new(v.clone()))
             .collect()
